@@ -32,6 +32,7 @@ from lark import (
     UnexpectedEOF,
     ParseTree,
 )
+from lark.exceptions import VisitError
 
 from .types import Nil
 
@@ -133,6 +134,25 @@ def _error_position(source: str, e: Any) -> Tuple[int, int]:
         lines = source.split("\n")
         return len(lines), len(lines[-1]) + 1
     return e.line, e.column
+
+
+def _visit_error(e: VisitError, filename: pathlib.Path) -> Result[Any, FcpError]:
+    """Turn an exception raised by a transformer callback into an error value."""
+    meta = getattr(e.obj, "meta", None)
+    node = None
+    if meta is not None and hasattr(meta, "line"):
+        node = Token(
+            MetaData(
+                meta.line,
+                meta.end_line,
+                meta.column,
+                meta.end_column,
+                meta.start_pos,
+                meta.end_pos,
+                str(filename),
+            )
+        )
+    return error(f"Invalid {e.rule}: {e.orig_exc}", node)
 
 
 def _get_meta(tree: ParseTree, parser: Lark) -> MetaData:
@@ -429,12 +449,17 @@ class FcpV2Transformer(Transformer):
                 Token(MetaData(line, line, column, column, 0, 0, str(filename))),
             )
 
-        fcp = FcpV2Transformer(
-            pathlib.Path(filename).resolve(),
-            self.parser_context,
-            self.filesystem_proxy,
-            self.error_logger,
-        ).transform(fcp_ast)
+        try:
+            fcp = FcpV2Transformer(
+                pathlib.Path(filename).resolve(),
+                self.parser_context,
+                self.filesystem_proxy,
+                self.error_logger,
+            ).transform(fcp_ast)
+        except VisitError as e:
+            fcp = _visit_error(e, filename).map_err(
+                lambda err: err.results_in(f"Failed to parse {filename.name}")
+            )
 
         self.fcp.merge(
             fcp.map_err(
@@ -577,9 +602,14 @@ def _get_fcp(
 
     parser_context = ParserContext()
 
-    fcp = FcpV2Transformer(
-        filename, parser_context, filesystem_proxy, logger
-    ).transform(fcp_ast)
+    try:
+        fcp = FcpV2Transformer(
+            filename, parser_context, filesystem_proxy, logger
+        ).transform(fcp_ast)
+    except VisitError as e:
+        return _visit_error(e, filename).map_err(
+            lambda err: err.results_in(f"Failed to parse {filename.name}")
+        )
 
     return Ok(fcp.attempt())
 
